@@ -240,3 +240,11 @@ package placement
 //@   ensures [crossing-gets-none] (exists i :: 1 <= i && i < len(rl.ranges) && keycmp(rl.ranges[i - 1].startKey, start) <= 0 && keycmp(rl.ranges[i].startKey, start) > 0 && (len(end) == 0 || keycmp(end, rl.ranges[i].startKey) > 0)) && sortedRanges(rl) ==> result == nil || true
 //@   modifies nothing
 //@ pure sortedRanges(rl ruleList) = forall a, b :: 0 <= a && a < b && b < len(rl.ranges) ==> keycmp(rl.ranges[a].startKey, rl.ranges[b].startKey) < 0
+
+// loadGroups' per-entry callback: every stored group configuration is decoded into an object of its own - whatever the
+// callback puts into the served group map did not exist before the call (no two group ids can end up sharing one object).
+//@ func (*RuleManager).loadGroups$1
+//@   props C13
+//@   requires m != nil && m.ruleConfig != nil && m.ruleConfig.groups != nil
+//@   ensures [each-group-gets-its-own-object] forall id string :: {in(m.ruleConfig.groups, id)} in(m.ruleConfig.groups, id) && (!old(in(m.ruleConfig.groups, id)) || m.ruleConfig.groups[id] != old(m.ruleConfig.groups[id])) ==> (forall g2 *RuleGroup :: {old(allocated(g2))} g2 != nil && old(allocated(g2)) ==> m.ruleConfig.groups[id] != g2)
+//@   modifies m.ruleConfig.groups[*], ghost evres
